@@ -21,6 +21,7 @@ struct Conn {
   size_t sent = 0, received = 0;        // reported by successful sends / delivered by successful receives
   bool sender_done = false, receiver_done = false, aborted = false, receiver_quits_early = false;
   bool client_sends = true;
+  bool use_send_to = false; PSocketAddress *peer_addr = nullptr;      // stream data pushed through p_socket_send_to (address ignored on a connected socket)
 };
 struct St {
   PSocketFamily fam;
@@ -58,6 +59,8 @@ void wait_cond(PSocket *s, PSocketIOCondition c) {
 }
 
 void run_sender(PSocket *s, Conn &c, bool blocking) {
+  if (c.use_send_to && !c.peer_addr) { PError *pe = nullptr; c.peer_addr = p_socket_get_remote_address(s, &pe); drop(&pe); }
+  struct AddrGuard { Conn &c; ~AddrGuard() { if (c.peer_addr) { p_socket_address_free(c.peer_addr); c.peer_addr = nullptr; } } } guard_addr{c};
   size_t pos = 0;
   std::vector<char> buf;
   int guard = 0;
@@ -67,7 +70,9 @@ void run_sender(PSocket *s, Conn &c, bool blocking) {
     char *b = (char *)malloc(chunk);                       // exact size: over-reads hit a red zone (flavour A)
     for (size_t i = 0; i < chunk; i++) b[i] = (char)prf(c.id, pos + i);
     PError *e = nullptr;
-    pssize n = HX_API("p_socket_send", (int)c.id, false, p_socket_send(s, b, chunk, &e));
+    pssize n;
+    if (c.use_send_to && c.peer_addr) n = HX_API("p_socket_send_to", (int)c.id, false, p_socket_send_to(s, c.peer_addr, b, chunk, &e));     // on a connected socket the address is ignored
+    else n = HX_API("p_socket_send", (int)c.id, false, p_socket_send(s, b, chunk, &e));
     free(b);
     if (n > 0) {
       if ((size_t)n > chunk) violate("send_reported_more_than_given", "p_socket_send", "send(%zu) returned %zd", chunk, (ssize_t)n);
@@ -215,7 +220,8 @@ void tcp_mode() {
     c.total = r == 0 ? 1 + gen(16) : r == 1 ? 1 + gen(2000) : 1 + gen(tier ? 262144 : 32768);
     c.client_sends = gen(2);
     c.receiver_quits_early = gen(8) == 0;
-    describe(" [%zuB %s%s]", c.total, c.client_sends ? "c->s" : "s->c", c.receiver_quits_early ? " rx-quits" : "");
+    c.use_send_to = gen(4) == 0;
+    describe(" [%zuB %s%s%s]", c.total, c.client_sends ? "c->s" : "s->c", c.receiver_quits_early ? " rx-quits" : "", c.use_send_to ? " via-send_to" : "");
   }
   bool bl = gen(2);
   spawn(0, [nconn, bl]() { tcp_server(nconn, bl); });
@@ -342,14 +348,16 @@ void udp_mode() {
         size_t expect = std::min(blen, d.size());
         if ((size_t)r == expect && memcmp(d.data(), b, expect) == 0) {
           matched = true; sender = S->dgram_sender[k];
-          if (from && p_socket_address_get_port(from) == S->udp_ports[sender]) source_ok = true;
+          if (from && p_socket_address_get_port(from) == S->udp_ports[sender] && p_socket_address_is_loopback(from)) source_ok = true;
         }
       }
       if (!matched) violate("datagram_not_one_sent", "p_socket_receive_from", "a received datagram of %zd bytes (buffer %zu) is not one sent datagram cut to the buffer length", (ssize_t)r, blen);
       if (!from) violate("no_source_address", "p_socket_receive_from", "receive_from returned a datagram of %zd bytes but no source address", (ssize_t)r);
       if (r == 0) probe("data.empty_datagram_received");
       if (!source_ok)
-        violate("wrong_source_address", "p_socket_receive_from", "datagram from the socket bound to port %d reported as coming from port %d", S->udp_ports[sender], p_socket_address_get_port(from));
+        { pchar *txt = from ? p_socket_address_get_address(from) : nullptr;
+          std::string t = txt ? txt : "?"; p_free(txt);
+          violate("wrong_source_address", "p_socket_receive_from", "datagram from the loopback socket bound to port %d reported as coming from %s port %d", S->udp_ports[sender], t.c_str(), p_socket_address_get_port(from)); }
       if (p_socket_address_get_family(from) != S->fam) violate("wrong_source_address", "p_socket_receive_from", "source address has the wrong family");
       p_socket_address_free(from);
       free(b);
